@@ -26,6 +26,7 @@ CLAIMS = {
  "C16": ("model_checking", "Tag-parsing clause only: fieldJSONInfo (real SSA) vs encoding/json's own parseTag/isValidTag/tagOptions.Contains (real SSA of the standard library) on symbolic tag values: same omit decision, same name, same optionality on every path, each path class replayed against the real encoding/json. The clauses that quantify over Go types alone (fresh tree, determinism, cycles, pruning) run as a concrete scaffold over a declared type family and are reported, not solver-decided.", "§6 C16"),
  "C19": ("model_checking", "Real SSA of orderedProperties.MarshalJSON and basicChecks with symbolic property presence, symbolic PropertyOrder sequences (duplicates, absent names) and every map iteration order: emitted key sequence = listed-and-present names in list order then the rest ascending; duplicates rejected.", "§6 C19"),
  "C05": ("model_checking", "Behavioural equivalence of a schema and its JSON round trip decided for all instances of the template: both are resolved natively, imported, and the real Validate runs on both with one symbolic instance per path (schema documents of both drafts; Go-constructed Schema values with each exported field nil / empty / null constant / populated / nested, alone and in pairs). Kernels from the real SSA: integer.UnmarshalJSON against the 'integral and within int32' specification with encoding/json's number parsing as a contract stub; the struct+map splice and true/false folding of Schema.MarshalJSON with json.Marshal as a contract stub. Byte-identity of the second marshal and keyword survival are native scaffold observations.", "§6 C05"),
+ "C20": ("exploration", "CloneSchemas executed from its real SSA in the engine (reflect model over the Schema struct; the package's field table computed by running its initialiser in the engine) on every tree shape of an enumerated family: each of the 23 subschema-bearing fields found from the Go types x {empty container, one node, two nodes} x a second field x a nested child; on the engine heap the clone shares no Schema object with the original, has the same shape and scalars, and shares non-schema slices; each path is repeated natively. There is no symbolic data, so the solver decides nothing: exploration level.", "§6 C20"),
 }
 
 ALL = [f"C{i:02d}" for i in range(1, 21)]
@@ -46,7 +47,7 @@ def main():
             "engine": "symgo",
             "level_claimed": {"category": cat, "text": text, "design_ref": "DESIGN.md " + ref},
             "level_note": NOTE,
-            "technique": TECH,
+            "technique": TECH if cat != "exploration" else "exhaustive in-engine execution of the real go/ssa over an enumerated shape family (no solver-decided data)",
         })
     na = [{"property_id": p, "reason": REASONS.get(p, "check not built yet in this session (work in progress; DESIGN.md §9 build order)")} for p in ALL if p not in CLAIMS]
     m = {
